@@ -17,13 +17,15 @@ REQUIRED_REACH = ['launch_sim', 'Simulator.run', 'AttitudeEstimator.imu_callback
 RULE = ("each case = one run of the packaged launch_sim (noise off, 30 simulated seconds, body rates up to 10 rad/s) with a random true "
         "attitude (angle 0..pi), gyro bias with every component |b| in [0.03,0.1] rad/s and random sign, estimator initialised from "
         "measurements or started at zero, inclination +-1 rad, declination +-0.4 rad, dt_sim in {1/800,1/400}, dt_imu in "
-        "{1/400,1/250,1/200}, dt_mag in {1/100,1/50,1/20}, logger period in {1/200,1/100,0.013}; monitors: recording proxies around "
+        "{1/400,1/250,1/200}, dt_mag in {1/100,1/50,1/20}, logger period in {1/200,1/100,0.013}, estimator rate limits, g, mag_str, parameters set in a random order; monitors: recording proxies around "
         "the simulator's sensor functions (oracle sensor model per call), subscribers on imu/mag/attitude topics (per message), "
         "offline checker on the returned log; non-trivial = every run (attitude and bias never zero); distinct = hashed run "
         "parameters; interleavings = distinct prefixes of the (attitude, imu, mag, estimate, log-row) event-kind sequence")
 ASSUMPTIONS = ["'after a transient' = after 15 s of a 30 s run; a run that has not converged by then (upside-down start with the estimator at zero "
                "and slow corrections needs ~60 s) is re-run for 150 s and decided on (100 s, 150 s]; 'a few hundredths of a radian' = 0.05 rad; "
                "'approach the true bias' = over the last 2 s each component's error is <= max(0.01 rad/s, 80% of its error around 12-18 s)", "IMU rate >= 200 Hz (shipped default) -- slower rates are outside the claimed envelope",
+               "'supported range' of the inclination for the convergence claim = +-1 rad; for 1.0..1.33 rad (the initialisation gate is at 80 degrees) only "
+               "sensor model, periods, no NaN/exception and 'initialises and publishes' are claimed (unchanged tree: heading does not converge at -1.2..-1.32 rad, a design limit)",
                "simpy scheduler"]
 
 
@@ -80,6 +82,20 @@ def one_run(ctx, launch, uros, msgs, rng, k):
         ang = rng.uniform(np.deg2rad(170), PI)
         r = np.tan(ang / 4) * np.array([np.cos(phi), np.sin(phi), rng.uniform(-0.05, 0.05)])
     incl, decl = rng.uniform(-1.0, 1.0), rng.uniform(-0.4, 0.4)
+    directed_steep = k == 0 and ctx.shard % 8 == 3
+    steep = directed_steep or ((not flipped) and rng.random() < 0.12)
+    flipped = flipped and not steep
+    if steep:
+        # steep field (57..76 degrees): the initialisation gate refuses a field closer than 10 degrees to gravity, i.e.
+        # |inclination| > 80 deg, so initialisation must still succeed here.  Convergence is NOT claimed for this class: the
+        # correction projects the measured field with the estimated attitude and knows nothing about the inclination, and on
+        # the unchanged tree the heading does not converge at -1.2 .. -1.32 rad (error grows to 2-3 rad; +1.32 converges
+        # slowly) -- a design limit of the filter, see DESIGN 2.C12.  Sensor model, periods, no-NaN/exception and "the
+        # estimator initialises and publishes" are checked.
+        incl = float(rng.choice([-1.0, 1.0]) * rng.uniform(1.0, 1.33))
+        if directed_steep:
+            incl = float((-1.0 if ctx.shard % 16 == 3 else 1.0) * rng.uniform(1.25, 1.33))
+        init = True
     P = {"sim/enable_noise": False, "sim/mag_incl": incl, "sim/mag_decl": decl, "mrp/mag_decl": decl,
          "sim/dt_sim": float(rng.choice([1 / 800, 1 / 400])), "sim/dt_imu": float(rng.choice([1 / 400, 1 / 250, 1 / 200])),
          "sim/dt_mag": float(rng.choice([1 / 100, 1 / 50, 1 / 20])), "logger/dt": float(rng.choice([1 / 200, 1 / 100, 0.013])),
@@ -92,6 +108,9 @@ def one_run(ctx, launch, uros, msgs, rng, k):
     P["sim/g"] = gval
     P["mrp/g"] = gval
     P["sim/mag_str"] = float(rng.choice([0.1, 0.1, 0.05, 0.3]))
+    # the order of the entries is configuration history too (parameters are set one by one before the run starts)
+    keys = list(P)
+    P = {k_: P[k_] for k_ in [keys[i] for i in rng.permutation(len(keys))]}
     tf = 30.0
     params = {"tf": tf, "initialize": init, "estimators": ["mrp"], "x0": np.r_[r, b], "params": P}
     case = {"x0": np.r_[r, b], "initialize": init, **P}
@@ -189,9 +208,25 @@ def one_run(ctx, launch, uros, msgs, rng, k):
     ctx.check("no_exception", "launch_sim", exc is None, {"case": case, "exception": exc})
     if exc is not None or log is None:
         return
+    # the configured values are the reference (not what the parameter message carries: a value that never reaches the nodes
+    # would otherwise go unnoticed); the last parameter message must carry every configured value
+    g_cfg, mag_str = P["sim/g"], P["sim/mag_str"]
     if rec["params"]:
-        g_cfg = float(rec["params"].get("sim/g", g_cfg))
-        mag_str = float(rec["params"].get("sim/mag_str", mag_str))
+        wrong = {k_: (float(rec["params"][k_]), v) for k_, v in P.items() if k_ in rec["params"] and isinstance(v, float) and float(rec["params"][k_]) != v}
+        ctx.check("parameter_message_carries_configuration", "params", not wrong, {"case": case, "published_vs_configured": wrong, "order": list(P)})
+    # publication and logging periods as configured (the simulator publishes on the first simulation step at or after the period)
+    def period_ok(stamps, dt_cfg, dt_step):
+        if len(stamps) < 5:
+            return True, None
+        d = np.diff(np.asarray(stamps))
+        want = np.ceil((dt_cfg - 1e-3) / dt_step - 1e-9) * dt_step if dt_step else dt_cfg
+        want = max(want, dt_step or 0.0)
+        return bool(np.abs(np.median(d) - want) <= 1e-6 + 0.02 * want), (float(np.median(d)), float(want))
+    for kind_, stamps, key_ in (("imu", [t_ for t_, _, _ in rec["imu"]], "sim/dt_imu"), ("mag", [t_ for t_, _ in rec["mag"]], "sim/dt_mag")):
+        okp, det = period_ok(stamps, P[key_], P["sim/dt_sim"])
+        ctx.check("publication_period_as_configured", kind_, okp, {"case": case, "median_period_and_expected": det, "order": list(P)})
+    okp, det = period_ok(log["time"], P["logger/dt"], 0.0)
+    ctx.check("log_period_as_configured", "logger", okp, {"case": case, "median_period_and_expected": det, "order": list(P)})
     ctx.count("runs")
     if flipped:
         ctx.count("upside_down_starts")
@@ -234,6 +269,11 @@ def one_run(ctx, launch, uros, msgs, rng, k):
     # the estimator publishes (initialised) well before the end of the transient
     ctx.check("estimator_publishes", "mrp_attitude", bool(have[t > 2.0].all()) and bool((t > 2.0).any()), {"case": case, "first_estimate_time": float(t[have][0]) if have.any() else None})
     if not (have & late).any():
+        return
+    if steep:
+        ctx.count("steep_inclination_runs")
+        ctx.skip("convergence_not_claimed_beyond_1rad_inclination")
+        ctx.check("no_nan_once_publishing", "log", bool(have[t > 2.0].all()), {"case": case})
         return
     err = quat_angle(qs, qe)
     m = have & late
